@@ -342,12 +342,20 @@ func dischargeAll(obls []*Obligation, cfg solveConfig) []*SolveResult {
 				if fi != nil && int(fi.Size()) > r.Size {
 					r.Size = int(fi.Size())
 				}
-				st, solver, out, _, all := solveFile(f, cfg.quickMs, cfg.fullMs, cfg.agree)
+				var st, solver, out string
+				var all map[string]string
+				if o.Expect == "sat" {
+					// vacuity / cover check: a quick look for a contradiction; "unknown" is acceptable
+					st, out, _ = runSolver(context.Background(), solvers[0], f, 1500)
+					solver = solvers[0].name
+				} else {
+					st, solver, out, _, all = solveFile(f, cfg.quickMs, cfg.fullMs, cfg.agree)
+				}
 				r.Solver = solver
 				if o.Expect == "sat" {
 					switch st {
 					case "unsat":
-						r.Status, r.File, r.Detail = "vacuous", f, "precondition is unsatisfiable"
+						r.Status, r.File, r.Detail = "vacuous", f, "the hypotheses at this point are unsatisfiable (contradictory precondition, invariant or assumed callee contract)"
 					case "sat":
 						if r.Status == "discharged" {
 							r.Status = "ok-sat"
